@@ -205,7 +205,7 @@ func (torrent *Torrent) MetadataComplete() error {
 	if len(info.Pieces)%20 != 0 {
 		return errors.New("pieces has an odd size")
 	}
-	if info.PieceLength%config.ChunkSize != 0 {
+	if info.PieceLength == 0 || info.PieceLength%config.ChunkSize != 0 {
 		return errors.New("odd sized piece")
 	}
 	hashes := make([]hash.Hash, 0, len(info.Pieces)/20)
@@ -234,6 +234,9 @@ func (torrent *Torrent) MetadataComplete() error {
 			if path == nil {
 				return errors.New("file has no path")
 			}
+			if f.Length < 0 {
+				return errors.New("file has negative length")
+			}
 			files = append(files,
 				Torfile{Path: path,
 					Offset:  length,
@@ -247,6 +250,11 @@ func (torrent *Torrent) MetadataComplete() error {
 		int64(config.ChunkSize)
 	if chunks != int64(uint32(chunks)) || chunks != int64(int(chunks)) {
 		return errors.New("torrent too large")
+	}
+	pieces := (length + int64(info.PieceLength) - 1) /
+		int64(info.PieceLength)
+	if int64(len(hashes)) != pieces {
+		return errors.New("inconsistent number of pieces")
 	}
 	torrent.inFlight = make([]uint8, chunks)
 
